@@ -115,11 +115,32 @@ func main() {
 	lg := &logger{enc: enc}
 	r := rand.New(rand.NewSource(*seed))
 
+	// every scenario is run with every message FORM of its kind (a defect may sit in one variant only)
+	forms := map[string][]string{}
+	for kind, vs := range pools {
+		seen := map[string]bool{}
+		for _, v := range vs {
+			if !seen[v.Form] {
+				seen[v.Form] = true
+				forms[kind] = append(forms[kind], v.Form)
+			}
+		}
+	}
 	idx := 0
 	for _, sc := range scs {
+		kind := sc.Kind
+		if kind == "unrecognised" {
+			kind = "mutant"
+		}
+		fl := forms[kind]
+		if kind == "mutant" {
+			fl = []string{""}
+		}
 		for k := 0; k < *reps; k++ {
-			runOne(lg, r, sc, pools, idx)
-			idx++
+			for _, f := range fl {
+				runOne(lg, r, sc, pools, idx, f)
+				idx++
+			}
 		}
 	}
 	bw.Flush()
@@ -127,7 +148,7 @@ func main() {
 	fmt.Printf("{\"scenarios\":%d,\"runs\":%d,\"events\":%d}\n", len(scs), idx, lg.n)
 }
 
-func pickLine(r *rand.Rand, sc Scenario, pools map[string][]sshdvec.Vector) (pid, line, cred string) {
+func pickLine(r *rand.Rand, sc Scenario, pools map[string][]sshdvec.Vector, form string) (pid, line, cred string) {
 	for tries := 0; ; tries++ {
 		var v sshdvec.Vector
 		switch sc.Kind {
@@ -137,6 +158,9 @@ func pickLine(r *rand.Rand, sc Scenario, pools map[string][]sshdvec.Vector) (pid
 			v = pools["failed"][r.Intn(len(pools["failed"]))]
 		default:
 			v = pools["mutant"][r.Intn(len(pools["mutant"]))]
+		}
+		if form != "" && v.Form != form && tries < 100000 {
+			continue
 		}
 		s := sshdvec.NewSubst(r, &v)
 		pid = sshdvec.Gen(r, "<pid.pos>")
@@ -161,9 +185,9 @@ func pickLine(r *rand.Rand, sc Scenario, pools map[string][]sshdvec.Vector) (pid
 	}
 }
 
-func runOne(lg *logger, r *rand.Rand, sc Scenario, pools map[string][]sshdvec.Vector, idx int) {
-	pid, line, cred := pickLine(r, sc, pools)
-	lg.log(map[string]any{"k": "reset", "idx": idx, "sc": sc, "pid": pid, "line": line})
+func runOne(lg *logger, r *rand.Rand, sc Scenario, pools map[string][]sshdvec.Vector, idx int, form string) {
+	pid, line, cred := pickLine(r, sc, pools, form)
+	lg.log(map[string]any{"k": "reset", "idx": idx, "sc": sc, "pid": pid, "line": line, "form": form})
 
 	e := &encoder{lg: lg, wok: sc.Wok, written: make(chan struct{}, 4)}
 	logins := make(chan common.RemoteUserLogin)
